@@ -10,10 +10,10 @@ theorem C53_other_keys (c : Cfg) (s : St) (rd : Nat → Nat) (k k' : Key) (h : k
     view (recordAndCheck c s k' rd).st k = view s k :=
   recordAndCheck_frame c s rd h hev
 
-/-- Jail, step level (partial: one call, not a whole history).  While the prison dictionary holds a
+/-- Jail, step level (one call, arbitrary clock reads).  While the prison dictionary holds a
     free time `ft` for `k`, a request of `k` whose (first) clock read is before `ft` is denied, for
     ARBITRARY later reads, evicts nothing and leaves the record of `k` as it is. -/
-theorem C53_jail_partial (c : Cfg) (s : St) (k : Key) (rd : Nat → Nat) (ft : Nat)
+theorem C53_jail_step (c : Cfg) (s : St) (k : Key) (rd : Nat → Nat) (ft : Nat)
     (h : dfind s.prison k = some ft) (ht : rd 0 < ft) :
     (recordAndCheck c s k rd).deny = true ∧ (recordAndCheck c s k rd).ev = [] ∧
     dfind (recordAndCheck c s k rd).st.prison k = some ft ∧
@@ -23,7 +23,7 @@ theorem C53_jail_partial (c : Cfg) (s : St) (k : Key) (rd : Nat → Nat) (ft : N
 
 /-- After the free time (first clock read ≥ ft) the record is removed by the first `shouldDeny`:
     the verdict is then the one of `recordAccess` on a state without a prison record for `k`. -/
-theorem C53_release_partial (c : Cfg) (s : St) (k : Key) (rd : Nat → Nat) (ft : Nat)
+theorem C53_release_step (c : Cfg) (s : St) (k : Key) (rd : Nat → Nat) (ft : Nat)
     (h : dfind s.prison k = some ft) (ht : ft ≤ rd 0) :
     (shouldDeny rd { access := s.access, prison := s.prison } k).1 = false ∧
     dfind (shouldDeny rd { access := s.access, prison := s.prison } k).2.prison k = none := by
@@ -35,5 +35,178 @@ example : (recordAndCheck ⟨10, 5, 1, 4, 4⟩ ⟨[], [(7, 100)]⟩ 7 (fun _ => 
 example : (recordAndCheck ⟨10, 5, 1, 4, 4⟩ ⟨[], [(7, 100)]⟩ 7 (fun _ => 100)).deny = false := by decide
 /-- threshold 1: second hit inside the window is jailed until start + cp + stay = 0 + 10 + 5 -/
 example : (recordAndCheck ⟨10, 5, 1, 4, 4⟩ ⟨[(7, ⟨1, 0⟩)], []⟩ 7 (fun _ => 3)).st.prison = [(7, 15)] := by decide
+
+/-! ## History level
+
+`inst h` is a history of calls `(key, t)` in which all clock reads of one call return the same
+value `t` (an "instantaneous" call; in reality the reads of one call differ by its duration, a few
+microseconds — the theorems that need this idealisation carry the suffix `_partial`).
+`kTimes k h` / `kVerdicts k h vs` project a history / its verdicts to the requests of key `k`.
+The ideal limiter `specStep` / `specRun` handles ONE key and knows nothing about dictionaries. -/
+
+/-- Other keys, history level, ARBITRARY clock reads: a whole history of requests of other keys
+    leaves the dictionaries' entries of `k` unchanged, provided `k` was not evicted. -/
+theorem C53_other_keys_history (c : Cfg) (k : Key) (es : List Event) (s : St)
+    (hne : ∀ e ∈ es, e.1 ≠ k) (hev : k ∉ (runHist c s es).2.2) :
+    view (runHist c s es).2.1 k = view s k :=
+  other_keys_hist c k es s hne hev
+
+/-- **Refinement.**  For every history of instantaneous calls with all keys interleaved and every key
+    `k` that is never evicted from an LRU dictionary: the verdicts given to `k`'s requests are exactly
+    those of the ideal one-key fixed-window limiter run on the times of `k`'s requests alone — in
+    particular they do not depend on the other keys' requests at all — and the abstraction relation
+    between the dictionaries' entries for `k` and the ideal state is maintained. -/
+theorem C53_refines_spec_partial (c : Cfg) (k : Key) (h : List (Key × Nat)) (s : St) (ks : KS)
+    (hR : Rel (view s k) ks) (hev : k ∉ (runHist c s (inst h)).2.2) :
+    kVerdicts k h (runHist c s (inst h)).1 = (specRun c ks (kTimes k h)).1 ∧
+    Rel (view (runHist c s (inst h)).2.1 k) (specRun c ks (kTimes k h)).2 :=
+  hist_refines c k h s ks hR hev
+
+/-- Jail, ideal machine.  `pre` are Threshold requests and `tl` one more, all inside the counting
+    window opened by the first of them (`t0`, window `[t0, t0+cp]`): the first Threshold requests are
+    allowed, request Threshold+1 is denied and so is every later request before the free time
+    `t0 + cp + stay`; the state is then still "jailed until t0+cp+stay". -/
+theorem C53_spec_jail (c : Cfg) (pre : List Nat) (tl : Nat) (later : List Nat)
+    (hlen : pre.length = c.th)
+    (hwin : ∀ x ∈ pre ++ [tl], x ≤ (pre ++ [tl]).headD 0 + c.cp)
+    (hfree : tl < (pre ++ [tl]).headD 0 + c.cp + c.stay)
+    (hlater : ∀ x ∈ later, x < (pre ++ [tl]).headD 0 + c.cp + c.stay) :
+    specRun c .idle (pre ++ tl :: later) =
+      (List.replicate c.th false ++ true :: List.replicate later.length true,
+       .jailed ((pre ++ [tl]).headD 0 + c.cp + c.stay)) := by
+  cases pre with
+  | nil =>
+    simp only [List.length_nil] at hlen
+    simp only [List.nil_append, List.headD_cons] at hwin hfree hlater ⊢
+    have hj := jailed_phase c (tl + c.cp + c.stay) later hlater
+    have hstep : specStep c .idle tl = (true, .jailed (tl + c.cp + c.stay)) := by
+      simp [specStep, specCount, ← hlen, hfree]
+    simp [specRun, hstep, hj, ← hlen]
+  | cons t0 pre' =>
+    simp only [List.cons_append, List.headD_cons] at hwin hfree hlater ⊢
+    simp only [List.length_cons] at hlen
+    have h1 : ¬ 0 + 1 > c.th := by omega
+    have hstep0 : specStep c .idle t0 = (false, .counting t0 1) := by
+      simp [specStep, specCount]; omega
+    have hcp := count_phase c t0 pre' 1 (fun x hx => hwin x (by simp [hx])) (by omega)
+    have htl : tl ≤ t0 + c.cp := hwin tl (by simp)
+    have hstep1 : specStep c (.counting t0 (1 + pre'.length)) tl = (true, .jailed (t0 + c.cp + c.stay)) := by
+      have : ¬ t0 + c.cp < tl := by omega
+      have h2 : 1 + pre'.length + 1 > c.th := by omega
+      simp [specStep, specCount, this, h2, hfree]
+    have hj := jailed_phase c (t0 + c.cp + c.stay) later hlater
+    rw [show t0 :: (pre' ++ tl :: later) = [t0] ++ (pre' ++ (tl :: later)) from rfl]
+    rw [specRun_append, specRun_append]
+    simp only [specRun, hstep0, hcp, hstep1, hj, ← hlen]
+    simp [List.replicate_succ]
+
+/-- Release, ideal machine: the first request at or after the free time is counted as the first
+    request of a new window (and therefore allowed when Threshold ≥ 1). -/
+theorem C53_spec_release (c : Cfg) (u t : Nat) (hu : u ≤ t) (hth : 1 ≤ c.th) :
+    specStep c (.jailed u) t = (false, .counting t 1) := by
+  have h1 : ¬ t < u := by omega
+  have h2 : ¬ 0 + 1 > c.th := by omega
+  simp [specStep, specCount, h1]; omega
+
+/-- Below the threshold, ideal machine: if the request times are non-decreasing and NO interval
+    `[s, s+cp]` contains more than Threshold of them, no request is ever denied. -/
+theorem C53_spec_below_never (c : Cfg) (ts : List Nat) (hs : List.Pairwise (· ≤ ·) ts)
+    (hH : ∀ s, (ts.filter (fun x => decide (s ≤ x) && decide (x ≤ s + c.cp))).length ≤ c.th) :
+    (specRun c .idle ts).1 = List.replicate ts.length false := by
+  cases ts with
+  | nil => simp [specRun]
+  | cons t r =>
+    have hp := List.pairwise_cons.mp hs
+    have hge : ∀ x ∈ t :: r, t ≤ x := by
+      intro x hx
+      rcases List.mem_cons.mp hx with h | h
+      · omega
+      · exact hp.1 x h
+    have hcongr : (t :: r).filter (fun x => decide (t ≤ x) && decide (x ≤ t + c.cp)) =
+        (t :: r).filter (fun x => decide (x ≤ t + c.cp)) := by
+      apply List.filter_congr
+      intro x hx
+      simp [hge x hx]
+    have h0 := hH t
+    rw [hcongr] at h0
+    have := below_never_aux c (t :: r) t 0 hs hge hH (by omega)
+    simp only [specRun] at this ⊢
+    rw [specStep_idle_eq]
+    exact this
+
+/-- **Jail, model, history level.**  Arbitrary interleaving with other keys; `k` has no counter and no
+    prison record initially and is never evicted.  If `k`'s requests are `pre` (Threshold many), `tl`,
+    `later` as in `C53_spec_jail`, then exactly the first Threshold requests of `k` are allowed and all
+    others — from request Threshold+1 until the free time — are denied, and afterwards the prison
+    dictionary holds the free time `t0 + cp + stay` for `k` (and no counter). -/
+theorem C53_jail_partial (c : Cfg) (k : Key) (h : List (Key × Nat)) (s : St)
+    (hfresh : view s k = (none, none)) (hev : k ∉ (runHist c s (inst h)).2.2)
+    (pre : List Nat) (tl : Nat) (later : List Nat) (hk : kTimes k h = pre ++ tl :: later)
+    (hlen : pre.length = c.th)
+    (hwin : ∀ x ∈ pre ++ [tl], x ≤ (pre ++ [tl]).headD 0 + c.cp)
+    (hfree : tl < (pre ++ [tl]).headD 0 + c.cp + c.stay)
+    (hlater : ∀ x ∈ later, x < (pre ++ [tl]).headD 0 + c.cp + c.stay) :
+    kVerdicts k h (runHist c s (inst h)).1 =
+      List.replicate c.th false ++ true :: List.replicate later.length true ∧
+    view (runHist c s (inst h)).2.1 k = (none, some ((pre ++ [tl]).headD 0 + c.cp + c.stay)) := by
+  have hr := C53_refines_spec_partial c k h s .idle hfresh hev
+  rw [hk, C53_spec_jail c pre tl later hlen hwin hfree hlater] at hr
+  exact ⟨hr.1, hr.2⟩
+
+/-- **Allowed after the free time, model.**  A jailed key (prison record `u`, no counter) whose request
+    comes at or after `u` is allowed (Threshold ≥ 1) and starts a new counting window. -/
+theorem C53_release_partial (c : Cfg) (s : St) (k : Key) (t u : Nat)
+    (hj : view s k = (none, some u)) (hu : u ≤ t) (hth : 1 ≤ c.th)
+    (hev : k ∉ (recordAndCheck c s k (fun _ => t)).ev) :
+    (recordAndCheck c s k (fun _ => t)).deny = false ∧
+    view (recordAndCheck c s k (fun _ => t)).st k = (some ⟨1, t⟩, none) := by
+  have hs := step_refines c s k t (.jailed u) hj hev
+  rw [C53_spec_release c u t hu hth] at hs
+  exact ⟨hs.1, hs.2.1⟩
+
+/-- **Below the threshold, model, history level.**  Arbitrary interleaving with other keys; `k` fresh
+    and never evicted; if `k`'s request times are non-decreasing and no interval `[s, s+cp]` contains
+    more than Threshold of them, none of `k`'s requests is denied. -/
+theorem C53_below_never_partial (c : Cfg) (k : Key) (h : List (Key × Nat)) (s : St)
+    (hfresh : view s k = (none, none)) (hev : k ∉ (runHist c s (inst h)).2.2)
+    (hs : List.Pairwise (· ≤ ·) (kTimes k h))
+    (hH : ∀ s', ((kTimes k h).filter (fun x => decide (s' ≤ x) && decide (x ≤ s' + c.cp))).length ≤ c.th) :
+    kVerdicts k h (runHist c s (inst h)).1 = List.replicate (kTimes k h).length false := by
+  have hr := C53_refines_spec_partial c k h s .idle hfresh hev
+  rw [hr.1]
+  exact C53_spec_below_never c (kTimes k h) hs hH
+
+/-! non-vacuity: cp 10, stay 5, threshold 2, capacities 4; keys 7 and 8 interleaved -/
+def cEx : Cfg := ⟨10, 5, 2, 4, 4⟩
+def hEx : List (Key × Nat) := [(7, 0), (8, 1), (7, 3), (8, 4), (7, 9), (7, 12), (8, 13), (7, 14)]
+
+/-- the hypotheses of C53_jail_partial hold for key 7 (pre = [0,3], tl = 9, later = [12,14], free time 15) -/
+example : kVerdicts 7 hEx (runHist cEx {} (inst hEx)).1 = [false, false, true, true, true] ∧
+    view (runHist cEx {} (inst hEx)).2.1 7 = (none, some 15) :=
+  C53_jail_partial cEx 7 hEx {} rfl (by decide) [0, 3] 9 [12, 14] (by decide) rfl
+    (by decide) (by decide) (by decide)
+
+/-- key 8 of the same history stays below the threshold (C53_below_never_partial applies) -/
+example : kVerdicts 8 hEx (runHist cEx {} (inst hEx)).1 = [false, false, false] :=
+  C53_below_never_partial cEx 8 hEx {} rfl (by decide) (by decide) (by
+    intro s'
+    by_cases hs : s' < 14
+    · exact (by decide : ∀ s' < 14,
+        ((kTimes 8 hEx).filter (fun x => decide (s' ≤ x) && decide (x ≤ s' + cEx.cp))).length ≤ cEx.th) s' hs
+    · have : (kTimes 8 hEx).filter (fun x => decide (s' ≤ x) && decide (x ≤ s' + cEx.cp)) = [] := by
+        rw [List.filter_eq_nil_iff]
+        intro x hx
+        simp [kTimes, hEx] at hx
+        simp
+        omega
+      rw [this]; simp)
+
+/-- release: after the free time 15 key 7 is allowed again -/
+example : (recordAndCheck cEx ⟨[], [(7, 15)]⟩ 7 (fun _ => 15)).deny = false :=
+  (C53_release_partial cEx ⟨[], [(7, 15)]⟩ 7 15 15 rfl (by decide) (by decide) (by decide)).1
+
+/-- the instantaneous-call idealisation matters only by the duration of the triggering call: with
+    distinct reads the stored free time is later by (third read − first read of IncAndCheck) -/
+example : (recordAndCheck cEx ⟨[(7, ⟨2, 0⟩)], []⟩ 7 (fun j => 9 + j)).st.prison = [(7, 16)] := by decide
 
 end BfeVerif.C53
